@@ -44,7 +44,7 @@ type nodeStats struct {
 	Scenarios                                                                          int
 	C08Compared, C08Resets, TwoRoundScenarios, C08InDealsWindow, ReinitProbes, Reinits int
 	CancelledRounds                                                                    int
-	C08Late, C08StampsMoved, PrefilledResults                                          int
+	C08Late, C08StampsMoved, PrefilledResults, JSONVariants, KeylessReinits            int
 }
 
 func tsTok(t time.Time) string {
@@ -80,7 +80,9 @@ func reqToTokens(v interface{}) []string {
 		out := []string{"sigInit", fmt.Sprint(r.SigningThreshold), tsTok(r.CreatedAt), fmt.Sprint(len(r.Participants))}
 		for _, p := range r.Participants {
 			if p == nil {
-				return []string{"other"}
+				// a JSON null: to the model an entry without a name (refused by the same validation)
+				out = append(out, "NIL", "x", "x")
+				continue
 			}
 			out = append(out, hs(p.Username), hx(p.PubKey), hx(p.DkgPubKey))
 		}
@@ -459,7 +461,13 @@ func (r *nodeRun) feedOp(c *cluster, n *vnode, m storage.Message, kind, opName s
 	toks = append(toks, reconTok...)
 	after := nodeRender(n)
 	r.emit(strings.Join(toks, " "), outcome+" sent=("+strings.Join(sent, ";")+") "+after)
-	r.st.OutcomeHist[kind+"/"+outcome]++
+	histKind := kind
+	if strings.HasPrefix(histKind, "mut:json-") {
+		if i := strings.Index(histKind[4:], ":"); i > 0 {
+			histKind = histKind[:4+i] // by kind of variant; the field and value are in the operation script
+		}
+	}
+	r.st.OutcomeHist[histKind+"/"+outcome]++
 	if outcome == "panic" {
 		r.mon(fmt.Sprintf("C18 never_panics: ProcessMessage panicked on a %s message (%s from %s)", kind, m.Event, m.SenderAddr))
 	}
@@ -494,13 +502,15 @@ type mutation struct {
 	// shouldReject: by the statement of C09/C10 this message must be rejected without effect
 	shouldReject bool
 	prop         string
+	// try: applied and rolled back on both sides whatever the outcome (a variant that may be accepted must not derail the ceremony)
+	try bool
 }
 
 // mutate produces structure-aware variants of a genuine message.
 func (r *nodeRun) mutate(c *cluster, obs *vnode, m storage.Message, otherRound string) []mutation {
 	var out []mutation
 	add := func(name, prop string, mm storage.Message, must bool) {
-		out = append(out, mutation{name, mm, must, prop})
+		out = append(out, mutation{name: name, msg: mm, shouldReject: must, prop: prop})
 	}
 	clone := func() storage.Message {
 		x := m
@@ -601,6 +611,32 @@ func (r *nodeRun) mutate(c *cluster, obs *vnode, m storage.Message, otherRound s
 	x.Data = []byte("{not json")
 	x.Signature = nil
 	add("garbage-data", "C18", x, false)
+	// the payload as JSON: nulls, wrong types, missing fields, respelled field names, nulls inside arrays - signed by the sender
+	if m.Event != "reinit_dkg" {
+		otherPid := -1
+		if pid, named := participantOf(m); named && len(c.nodes) > 1 {
+			otherPid = (pid + 1) % len(c.nodes)
+		}
+		var key ed25519.PrivateKey
+		if senderIdx >= 0 && len(m.Signature) > 0 {
+			key = c.nodes[senderIdx].kp.Priv
+		}
+		for _, jv := range jsonVariants(m.Data, otherPid) {
+			y := signedVariant(m, jv.data, key)
+			if jv.namesOther && key != nil {
+				out = append(out, mutation{name: jv.name, msg: y, shouldReject: true, prop: "C10"})
+			} else {
+				out = append(out, mutation{name: jv.name, msg: y, prop: "C18", try: true})
+			}
+		}
+	}
+	// an opening proposal (which nobody has to sign) whose participant list holds JSON nulls
+	x = clone()
+	x.Event = "event_sig_proposal_init"
+	x.DkgRoundID = fmt.Sprintf("null-round-%d", r.rng.Intn(2))
+	x.Data = []byte(`{"Participants":[null,null],"SigningThreshold":2,"CreatedAt":"2024-01-01T00:00:00Z"}`)
+	x.Signature = nil
+	add("null-participants", "C18", x, false)
 	if senderIdx >= 0 {
 		x = clone()
 		x.Data = []byte(`{"ParticipantId":-1,"CreatedAt":"2023-01-01T00:00:00Z"}`)
@@ -681,7 +717,26 @@ func (r *nodeRun) scenario(outDir string, n, t int, twoRounds bool) {
 				continue
 			}
 			if m.RecipientAddr == "" || m.RecipientAddr == obs.name {
-				muts := r.mutate(c, obs, m, otherRound)
+				all := r.mutate(c, obs, m, otherRound)
+				var muts, jmuts []mutation
+				for _, mu := range all {
+					if strings.HasPrefix(mu.name, "json-") {
+						jmuts = append(jmuts, mu)
+					} else {
+						muts = append(muts, mu)
+					}
+				}
+				r.rng.Shuffle(len(jmuts), func(i, j int) { jmuts[i], jmuts[j] = jmuts[j], jmuts[i] })
+				sort.SliceStable(jmuts, func(i, j int) bool {
+					return !r.tried[m.Event+"/"+jmuts[i].name] && r.tried[m.Event+"/"+jmuts[j].name]
+				})
+				jsonPer := 8
+				if r.tier == "thorough" {
+					jsonPer = 60
+				}
+				if len(jmuts) > jsonPer {
+					jmuts = jmuts[:jsonPer]
+				}
 				r.rng.Shuffle(len(muts), func(i, j int) { muts[i], muts[j] = muts[j], muts[i] })
 				// coverage first: (event, mutation kind) pairs not tried yet in this run come before the others
 				sort.SliceStable(muts, func(i, j int) bool {
@@ -697,13 +752,20 @@ func (r *nodeRun) scenario(outDir string, n, t int, twoRounds bool) {
 					// messages that must be rejected are tried and rolled back on both sides, so that an accepted one
 					// (reported below) does not derail the ceremony the later inputs are built from
 					opName := "msg"
-					if mu.shouldReject {
+					if mu.shouldReject || mu.try {
 						opName = "trymsg"
 					}
 					res := r.feedOp(c, obs, mu.msg, "mut:"+mu.name, opName)
 					r.tried[m.Event+"/"+mu.name] = true
 					r.st.Mutated++
-					r.st.MutationHist[mu.name+"/"+res.outcome]++
+					histName := mu.name
+					if strings.HasPrefix(histName, "json-") {
+						r.st.JSONVariants++
+						if i := strings.IndexAny(histName, ":"); i > 0 {
+							histName = histName[:i] // the histogram by kind; the coverage-first choice is by (event, field, value)
+						}
+					}
+					r.st.MutationHist[histName+"/"+res.outcome]++
 					if mu.shouldReject {
 						if res.outcome == "ok" && stripFreshRounds(res.before) != stripFreshRounds(res.after) {
 							clause := mutClause(mu.prop)
@@ -730,8 +792,18 @@ func (r *nodeRun) scenario(outDir string, n, t int, twoRounds bool) {
 						apply(mu) // before the genuine message
 					}
 				}
+				for i, mu := range jmuts {
+					if i%2 == 0 {
+						apply(mu)
+					}
+				}
 				gen := r.feed(c, obs, m, "genuine")
 				r.st.Genuine++
+				for i, mu := range jmuts {
+					if i%2 == 1 {
+						apply(mu)
+					}
+				}
 				for i, mu := range muts {
 					if i >= half && i < perMsg {
 						apply(mu) // after it (replays of an already applied message included)
@@ -862,7 +934,24 @@ func (r *nodeRun) scenario(outDir string, n, t int, twoRounds bool) {
 	}
 	r.c08Checks(c, obs, rounds)
 	r.resetObserved(c, obs)
-	r.reinitObserved(c, obs, round)
+	// every third time the file names no new communication key for one of the OTHER participants (an operator left it out of
+	// the key list: GenerateReDKGMessage then writes an empty key); whatever that participant posts afterwards must be refused
+	keyless := -1
+	if r.st.Scenarios%3 == 1 && n > 1 {
+		keyless = (obsIdx + 1) % n
+		r.st.KeylessReinits++
+	}
+	r.reinitObserved(c, obs, round, keyless)
+	who := keyless
+	if who < 0 {
+		who = (obsIdx + 1) % n
+	}
+	from := len(c.boardMessages())
+	if _, err := c.proposeTasks(c.nodes[who], round, []requests.SigningTask{{MessageID: "after-reinit", File: "after reinit.bin", Payload: []byte("proposed after the reinitialisation")}}); err == nil {
+		for _, m := range c.boardMessages()[from:] {
+			r.feed(c, obs, m, "after-reinit")
+		}
+	}
 }
 
 func mutClause(p string) string {
@@ -958,7 +1047,7 @@ func (r *nodeRun) reinitProbes(c *cluster, obs *vnode, round string) {
 // reinitObserved: the observed node, with an empty state database again, is re-initialised from a dump of the board by
 // the real procedure (GenerateReDKGMessage, in every other scenario GetAdaptedReDKG on a dump stripped of its
 // self-confirmations); the Lean model of reinitDKG gets the decoded dump with the oracles of every inner message.
-func (r *nodeRun) reinitObserved(c *cluster, obs *vnode, round string) {
+func (r *nodeRun) reinitObserved(c *cluster, obs *vnode, round string, keyless int) {
 	if _, err := obs.fsmSvc.ResetFSMState(&dto.ResetStateDTO{NewStateDBDSN: filepath.Join(obs.dir, "state-reset-reinit")}); err != nil {
 		r.mon("harness: reset: " + err.Error())
 		return
@@ -977,8 +1066,10 @@ func (r *nodeRun) reinitObserved(c *cluster, obs *vnode, round string) {
 		dump = stripPubPoly(c, stripped)
 	}
 	newKeys := map[string][]byte{}
-	for _, nd := range c.nodes {
-		newKeys[nd.name] = nd.kp.Pub
+	for i, nd := range c.nodes {
+		if i != keyless {
+			newKeys[nd.name] = nd.kp.Pub
+		}
 	}
 	re, err := ctypes.GenerateReDKGMessage(dump, newKeys)
 	if err != nil {
